@@ -80,6 +80,10 @@ GENERAL = [
     ("bigquery", "SELECT 1 AS a, 2 AS b, 3 AS c FULL UNION ALL BY NAME SELECT 4 AS c, 5 AS d, 6 AS a"),
     ("duckdb", "SELECT 1 AS a, 2 AS b UNION ALL BY NAME SELECT 3 AS b, 4 AS c"),
     (None, "SELECT * FROM a NATURAL JOIN b JOIN c USING (k1, k2, k3)"),
+    (None, "SELECT a FROM t UNION SELECT a FROM u ORDER BY a LIMIT 3 OFFSET 1"),
+    (None, "(SELECT a FROM t) EXCEPT (SELECT a FROM u) ORDER BY 1 DESC LIMIT 2"),
+    ("duckdb", "SELECT JSON_EXTRACT(x, '$.a[0]'), JSON_EXTRACT(x, '$.a[*].b'), JSON_EXTRACT(x, '$..c') FROM t"),
+    ("mysql", "SELECT JSON_EXTRACT(x, '$.a[1]'), x -> '$.b[0].c' FROM t"),
     (None, "SELECT t.*, u.* EXCEPT (k) FROM t JOIN u ON t.k = u.k"),
     ("clickhouse", "SELECT toDate(x), arrayJoin(y), z FROM t FINAL PREWHERE a = 1"),
     ("oracle", "SELECT NVL(a, b), SYSDATE FROM dual WHERE ROWNUM < 3"),
@@ -230,6 +234,9 @@ FAILING = [
     (None, "SELECT a FROM t WHERE"),
     ("bigquery", "SELECT `unterminated FROM t"),
     (None, "CASE WHEN"),
+    (None, "SELECT a, /* pending */ 'unterminated"),
+    ("postgres", "SELECT /* c */ a, $$unterminated"),
+    (None, "SELECT a -- trailing comment\n, \"unterminated"),
     (None, "SELECT a FROM t CONNECT BY PRIOR a = ("),
     (None, "SELECT a FROM t START WITH a = 1 CONNECT BY PRIOR"),
     ("snowflake", "SELECT a FROM t MATCH_RECOGNIZE (PARTITION BY"),
@@ -359,3 +366,22 @@ FIXTURE_SCHEMA = {
     "z": {"b": "INT", "c": "INT"},
     "w": {"d": "TEXT", "e": "TEXT"},
 }
+
+
+def extracted_strata():
+    """Extracted statements grouped by their leading keyword, so that rare statement kinds (ALTER, MERGE, COPY, GRANT, ...)
+    are not drowned by the thousands of SELECTs when a statement is drawn: pick a stratum first, then a statement."""
+    key = ("strata",)
+    if key in _cache:
+        return _cache[key]
+    groups = {}
+    for d, q in extracted():
+        w = q.lstrip("( \n\t").split(None, 1)[0].upper() if q.strip() else ""
+        groups.setdefault(w if w.isalpha() else "OTHER", []).append((d, q))
+    big = {k: v for k, v in groups.items() if len(v) >= 8}
+    rest = [x for k, v in sorted(groups.items()) if len(v) < 8 for x in v]
+    if rest:
+        big["MISC"] = rest
+    out = [big[k] for k in sorted(big)]
+    _cache[key] = out
+    return out
